@@ -1,4 +1,5 @@
 import Rare.Drv.Expr
+import Rare.Drv.C11F64
 /-!
 C11 ops: the shared `expr` op, plus
 
@@ -7,6 +8,8 @@ C11 ops: the shared `expr` op, plus
 which evaluates `{lookup {0} {load FILE} [prefix]}` with FILE holding `content` (the table text
 reaches the builder as a constant without passing through the template syntax, so it can hold
 arbitrary bytes and be as large as `bufio.Scanner`'s limits).  Answer: `ok val=<hex>`.
+
+  f64 …   the software binary64 model against the hardware, see `Rare/Drv/C11F64.lean`.
 -/
 namespace Rare.Drv.C11
 open Rare Rare.Expr Rare.Proto
@@ -33,8 +36,11 @@ def handle (args : List String) : String :=
     | some key, some content, some pre => lookupFile fn key content pre
     | _, _, _ => "bad-args")
   | _ =>
-    match Rare.Drv.Expr.handle args with
+    match Rare.Drv.C11F64.handle args with
     | some a => a
-    | none => "bad-op"
+    | none =>
+      match Rare.Drv.Expr.handle args with
+      | some a => a
+      | none => "bad-op"
 
 end Rare.Drv.C11
